@@ -102,6 +102,25 @@ CLAIMED["C16"] = dict(
     technique="bounded-exhaustive enumeration of names and batch shapes against round-trip / injectivity oracles",
     design_ref="§4 C16")
 
+CLAIMED["C10"] = dict(
+    category="exploration", engine="enum",
+    text="Every boolean expression tree with <=3 binary operators (thorough 4), every placement of `!` (<=2 per path), atoms realised by the four leaf kinds, each rendered in 4 parenthesis layouts (mixed, full, TypeScript-minimal, redundant), plus every `(` / `!(` wrapper string of length <=9: schema.Parse must accept it and the truth table of the parsed rewrite must equal the truth table an independent precedence-climbing evaluator (TypeScript precedence) computes from the rendered token string. Independently the full product of 12 spelling dimensions x 6 layouts on two documents and a comment in every token gap must parse to the source AST.",
+    note="Only spellings the documented grammar/examples allow are demanded (others are listed in evidence as not demanded); end-to-end agreement of engine decisions with the parsed rewrite is C01's part (strict-mode configurations reach keto as OPL text).",
+    technique="bounded-exhaustive program enumeration with a truth-table oracle from an independent evaluator (translation validation of the OPL front end on a finite grammar)",
+    design_ref="§4 C10")
+CLAIMED["C11"] = dict(
+    category="exploration", engine="enum",
+    text="Every OPL program of a bounded grammar (<=3 namespaces, <=4 declarations, relation types from {N[], SubjectSet<N,r>[], unions}, permissions a leaf, a negated leaf or a binary of leaves): for each accepted program (a) every single-reference replacement by an undeclared name must be rejected with an error at that token, and (b) on a real engine over sqlite configured with the program, every conforming tuple set of <=2 tuples and every query on a declared (namespace, relation), default and strict mode, must not fail with a schema error.",
+    note="Engine free-running: only 'a schema error occurred' is judged and a candidate must reproduce 5/5; programs whose permissions recurse without consuming depth are skipped and counted; global depth 8.",
+    technique="bounded-exhaustive program enumeration x bounded-exhaustive conforming inputs on the implementation",
+    design_ref="§4 C11")
+CLAIMED["C12"] = dict(
+    category="exploration", engine="enum",
+    text="All byte strings of length <=2 and all strings of length <=4 (thorough 5) over a 25-byte alphabet (every delimiter, quotes, comment starts, newline, letter, digit, non-ASCII and invalid UTF-8) in 5 parser contexts; all token sequences of length <=4 (5) over 41 spellings x 3 separators; the complete single-edit neighbourhood of the corpus documents; 28 geometric families up to 2^14 (2^16). Oracle: no panic, terminates (step-count watchdog), errors or well-formed namespaces, every error position inside the input with start <= end, Error/ToAPI/ToProto do not panic, REST and gRPC syntax endpoints agree with Parse; LINEAR WORK measured without wall-clock: tools/vticks inserts a tick at every function entry and loop body of package schema (generated overlay); ticks <= 100*|s|+500 on every input and doubling ratio <= 2.5 on every family.",
+    note="Hidden library costs inside a single call (e.g. fmt) are not counted; rendering n errors through the endpoints is quadratic in n (observed, not judged: the statement bounds parsing).",
+    technique="bounded-exhaustive input enumeration with deterministic step counting (instrumented work counter) as the complexity oracle",
+    design_ref="§4 C12")
+
 NOT_YET = "check not built yet in this revision (work in progress; see DESIGN.md §4 for the planned model-checking design)"
 
 
